@@ -86,3 +86,148 @@ fn cover_strfns() {
     kani::cover!(i < 0 && s > 0);
     kani::cover!(i > 0 && s == len);
 }
+
+// ---- whole closures on concrete strings (bounded): the index arithmetic
+// above says nothing about how `len` is obtained, how the offsets are
+// applied, or which quotes the result gets.  Here the complete bodies of
+// string.slice / insert / index / length are extracted (argument fetches
+// replaced by parameters) and run on a concrete non-ASCII string with
+// symbolic indices in -5..=5. ----
+use crate::css::CssString;
+use crate::value::Quotes;
+
+//@range file=rsass/src/sass/functions/string.rs fn=create_module from="let string: CssString = s.get(name!(string))?;\n        let st = string.value();" until="\n    });"
+//@  header: fn snippet_slice(string_arg: CssString, start_arg: i64, end_arg: i64) -> Result<Value, CallError>
+//@  subst: s.get(name!(string))? => string_arg
+//@  subst: s.get_map(name!(start_at), check::unitless_int)? => start_arg
+//@  subst: s.get_map(name!(end_at), check::unitless_int)? => end_arg
+//@end
+
+//@range file=rsass/src/sass/functions/string.rs fn=create_module from="let string: CssString = s.get(name!(string))?;\n        let insert: String" until="\n    });"
+//@  header: fn snippet_insert(string_arg: CssString, insert_arg: String, index_arg: i64) -> Result<Value, CallError>
+//@  subst: s.get(name!(string))? => string_arg
+//@  subst: s.get(name!(insert))? => insert_arg
+//@  subst: s.get_map(name!(index), check::unitless_int)? => index_arg
+//@end
+
+//@range file=rsass/src/sass/functions/string.rs fn=create_module from="let string: String = s.get(name!(string))?;\n        Ok(string\n            .find(" until="\n    });"
+//@  header: fn snippet_index(string_arg: String, substring_arg: String) -> Result<Value, CallError>
+//@  subst: s.get(name!(string))? => string_arg
+//@  subst: s.get::<String>(name!(substring))? => substring_arg
+//@end
+
+//@range file=rsass/src/sass/functions/string.rs fn=create_module from="let string: String = s.get(name!(string))?;\n        Ok(Value::scalar(string.chars().count()))" until="\n    });"
+//@  header: fn snippet_length(string_arg: String) -> Result<Value, CallError>
+//@  subst: s.get(name!(string))? => string_arg
+//@end
+
+fn text_of(r: Result<Value, CallError>) -> Option<(String, Quotes)> {
+    match r {
+        Ok(Value::Literal(s)) => Some((s.value().to_string(), s.quotes())),
+        _ => None,
+    }
+}
+fn int_of(r: Result<Value, CallError>) -> Option<i64> {
+    match r {
+        Ok(Value::Null) => None,
+        Ok(Value::Numeric(n, _)) => n.value.into_integer().ok(),
+        _ => {
+            assert!(false, "a number or null");
+            None
+        }
+    }
+}
+/// The code points of the test string "äbc" (4 bytes, 3 code points).
+const CPS: [&str; 3] = ["ä", "b", "c"];
+fn small_index() -> i64 {
+    let i: i8 = kani::any();
+    kani::assume(-5 <= i && i <= 5);
+    i64::from(i)
+}
+/// 1-based inclusive position of index `i` in a string of 3 code points
+/// (negative counts from the end), unclamped.
+fn pos3(i: i64) -> i64 {
+    if i < 0 { 3 + i + 1 } else { i }
+}
+
+/// C26: string.slice counts code points (not bytes) and keeps the
+/// quotedness of its argument.
+#[kani::proof]
+#[kani::unwind(8)]
+fn c26_slice_code_points_and_quotes() {
+    let (i, j) = (small_index(), small_index());
+    let q = if kani::any() { Quotes::Double } else { Quotes::None };
+    let r = text_of(snippet_slice(CssString::new(String::from("äbc"), q), i, j));
+    let lo = pos3(i).max(1);
+    let hi = pos3(j).min(3);
+    let mut want = String::new();
+    let mut k = 1;
+    while k <= 3 {
+        if lo <= k && k <= hi {
+            want.push_str(CPS[(k - 1) as usize]);
+        }
+        k += 1;
+    }
+    match r {
+        Some((s, rq)) => {
+            assert!(s == want, "slice: the code points at positions i through j (empty when the range is empty)");
+            assert!(rq == q, "slice keeps the quotedness of its argument");
+        }
+        None => assert!(false, "slice of a string is a string"),
+    }
+}
+/// C26: string.insert counts code points, inserts before position i
+/// clamped to the string, and keeps the quotedness of $string.
+#[kani::proof]
+#[kani::unwind(8)]
+fn c26_insert_code_points_and_quotes() {
+    let i = small_index();
+    let q = if kani::any() { Quotes::Double } else { Quotes::None };
+    let r = text_of(snippet_insert(CssString::new(String::from("äbc"), q), String::from("X"), i));
+    // number of code points in front of the inserted text
+    let before = if i > 0 { (i - 1).min(3) } else if i == 0 { 0 } else { (3 + i + 1).max(0) };
+    let mut want = String::new();
+    let mut k = 0;
+    while k <= 3 {
+        if k == before {
+            want.push('X');
+        }
+        if k < 3 {
+            want.push_str(CPS[k as usize]);
+        }
+        k += 1;
+    }
+    match r {
+        Some((s, rq)) => {
+            assert!(s == want, "insert: before position i, clamped; positions count code points");
+            assert!(rq == q, "insert keeps the quotedness of $string");
+        }
+        None => assert!(false, "insert gives a string"),
+    }
+}
+#[kani::proof]
+#[kani::unwind(8)]
+fn c26_insert_into_empty_keeps_quotes_of_string() {
+    let q = if kani::any() { Quotes::Double } else { Quotes::None };
+    match text_of(snippet_insert(CssString::new(String::new(), q), String::from("X"), 1)) {
+        Some((s, rq)) => assert!(s == "X" && rq == q, "insert into the empty string keeps $string's quotedness"),
+        None => assert!(false, "insert gives a string"),
+    }
+}
+/// C26: string.index gives the first 1-based code-point position of the
+/// substring, or null.
+#[kani::proof]
+#[kani::unwind(12)]
+fn c26_index_first_code_point_position() {
+    assert!(int_of(snippet_index(String::from("äbc"), String::from("c"))) == Some(3), "index counts code points, not bytes");
+    assert!(int_of(snippet_index(String::from("aaab"), String::from("aab"))) == Some(2), "index finds a match that overlaps a failed partial match");
+    assert!(int_of(snippet_index(String::from("abab"), String::from("b"))) == Some(2), "index gives the FIRST position");
+    assert!(int_of(snippet_index(String::from("abc"), String::from("x"))) == None, "index is null when absent");
+}
+/// C26: string.length counts code points.
+#[kani::proof]
+#[kani::unwind(8)]
+fn c26_length_counts_code_points() {
+    assert!(int_of(snippet_length(String::from("äbc"))) == Some(3), "length counts code points");
+    assert!(int_of(snippet_length(String::new())) == Some(0));
+}
